@@ -53,6 +53,14 @@ func internalFault(msg string) bool {
 }
 
 var c02Boundary = []func() (string, string){
+	// break/continue at the top level of a module body belong to no loop, wherever the import stands
+	func() (string, string) { return "for i := 0; i < 2; i++ { m := import(\"brk\") }", "compile-error" },
+	func() (string, string) { return "for x in [1, 2] { m := import(\"cont\") }", "compile-error" },
+	func() (string, string) { return "f := func() { for { m := import(\"brk\"); break } }", "compile-error" },
+	func() (string, string) { return "m := import(\"brk\")", "compile-error" },
+	func() (string, string) {
+		return "out := 0\nfor i := 0; i < 2; i++ { m := import(\"lp\"); out += m; if out > 100 { break } }\nf := func() { for x in [1, 2] { out += import(\"lp\"); continue } }\nf()", "ok"
+	},
 	func() (string, string) {
 		return "f := func(...a) { return len(a) }; x := f(" + strings.Repeat("1,", 254) + "1)", "ok"
 	},
